@@ -17,3 +17,8 @@ claim("C19", "static analysis: guard dominance (SCCP) + argument provenance on t
   "Decides that sim validateDecision can return nil only past every check with the quorum threshold's operands taken from this instance's power table and the aggregate verified over the decision's own payload; that invalid decisions are always recorded, surfaced by Err() and acted on by Run; that consensus comparison covers every non-excluded participant; and that certchain's committee look-back equals the node's as linear forms (C19.R1–R3). Structural necessary conditions; whether simulations exercise these paths is not decided.",
   "AS2 cryptography sound; AS5 certchain.certificates[k] is instance Initial+k; trusts go/types, go/ssa, checker/c19.go.",
   "DESIGN.md §4 C19")
+
+claim("C20", "static analysis: SSA value-identity ordering, min/max linear-form entailment, SCCP decision table on the polling subscriber/predictor",
+  "Decides that every return of Subscriber.poll yields NextInstance(after) − NextInstance(before) in that order, that the predictor is fed only that progress, that the timer extension is ≤ delay/2 and ≤ the request time, that predictor.update's full decision table over (back-off, progress 0/1/2/≥3) equals the specification with clamps, and that CatchUp's progress is latest+1 − NextInstance(before) (C20.R1–R4). Structural necessary conditions; convergence of the cadence over time is dynamics and is not decided.",
+  "Trusts go/types, go/ssa, checker/lin.go, checker/sccp.go and the table in checker/c20.go.",
+  "DESIGN.md §4 C20")
